@@ -241,6 +241,71 @@ pub fn run_c17(tier: Tier, seed: u64, workers: usize) -> RunResult {
             Err(b) => acc.fail(arith_case(4, be, &[]), b),
         }
     }
+    // (g) requests through the public API of live tables: len + additional around every boundary that is
+    // cheap to allocate, and around the ends of the usize range (no memory is touched there: the request is
+    // reported as overflow or refused by the allocator)
+    hbv::world::install_panic_hook();
+    let lens: [usize; 8] = [0, 1, 2, 3, 7, 28, 29, 100];
+    std::thread::scope(|sc| {
+        for w in 0..workers {
+            let acc = &acc;
+            sc.spawn(move || {
+                let mut reqs: Vec<(usize, usize, u64)> = Vec::new();
+                for (li, len) in lens.iter().copied().enumerate() {
+                    for etype in 0..4u64 {
+                        let kmax = if etype == 3 { 13 } else if tier == Tier::Quick { 17 } else { 21 };
+                        for k in 2..=kmax {
+                            let p = 1usize << k;
+                            for base in [p, p / 8 * 7] {
+                                for d in -2i64..=2 {
+                                    let target = base as i64 + d;
+                                    if target > len as i64 {
+                                        reqs.push((len, target as usize - len, etype));
+                                    }
+                                    if target > 0 && li % 2 == 1 {
+                                        reqs.push((len, target as usize, etype));
+                                    }
+                                }
+                            }
+                        }
+                        for e in 0..=4usize {
+                            reqs.push((len, (usize::MAX - len).wrapping_add(e).max(1), etype));
+                            reqs.push((len, usize::MAX - len - e, etype));
+                            reqs.push((len, usize::MAX - e, etype));
+                            reqs.push((len, (isize::MAX as usize) - 2 + e, etype));
+                            reqs.push((len, (isize::MAX as usize) - len - 2 + e, etype));
+                        }
+                        for k in [56u32, 59, 60, 61, 62, 63] {
+                            for d in -1i64..=1 {
+                                reqs.push((len, ((1u128 << k) as i128 + d as i128) as usize, etype));
+                                reqs.push((len, (((1u128 << k) / 8 * 7) as i128 + d as i128) as usize - len, etype));
+                            }
+                        }
+                    }
+                }
+                for (i, (len, additional, etype)) in reqs.into_iter().enumerate() {
+                    if i % workers != w {
+                        continue;
+                    }
+                    acc.evals.fetch_add(2, Ordering::Relaxed);
+                    if len > 0 {
+                        acc.boundary.fetch_add(2, Ordering::Relaxed);
+                    }
+                    let kv = [("len", len as u64), ("additional", additional as u64), ("etype", etype)];
+                    if let Err(b) = hbv::sse::arith::check_request(len, additional, etype) {
+                        acc.fail(arith_case(5, 0, &kv), b);
+                    }
+                    if let Err(b) = hbv::gen::arith::check_request(len, additional, etype) {
+                        acc.fail(arith_case(5, 1, &kv), b);
+                    }
+                    if acc.stop.load(Ordering::Relaxed) {
+                        return;
+                    }
+                }
+            });
+        }
+    });
+    acc.sample("try_reserve / reserve through HashTable and HashSet holding len in {0,1,2,3,7,28,29,100} elements of 4, 8, 16 and 200 bytes: len + additional within 2 of every 2^k and 7/8*2^k (k <= 17 quick / 21 thorough), additional within 4 of usize::MAX - len, usize::MAX, isize::MAX and around 2^56..2^63; Ok needs capacity() >= len + additional, a panic or a wrapped sum is a violation".to_string());
     finish(acc, t0)
 }
 
